@@ -153,7 +153,9 @@ def dispatch (f : String) (j : Json) : Option Json :=
         | [new] =>
           let s' := setAst s fi new v u
           return Json.mkObj [("tree", astJson s'.root), ("store", storeJson s'.σ (aids0 ++ ids s'.root)),
-                             ("inv", Json.bool (linkInvB s'))]
+                             ("inv", Json.bool (linkInvB s')), ("wf_before", Json.bool (wfB s)),
+                             ("admissible", Json.bool (admissibleB s (.setAst fi new v u))),
+                             ("wf_after", Json.bool (wfB s'))]
         | _ => return err "set_ast needs one new tree"
       | "set_field" =>
         let some fi := getNat o "fst" | return err "no fst"
@@ -161,7 +163,9 @@ def dispatch (f : String) (j : Json) : Option Json :=
         let isList := (getBool o "is_list").getD true
         let s' := setField s fi fname isList extra v u
         return Json.mkObj [("tree", astJson s'.root), ("store", storeJson s'.σ (aids0 ++ ids s'.root)),
-                           ("inv", Json.bool (linkInvB s'))]
+                           ("inv", Json.bool (linkInvB s')), ("wf_before", Json.bool (wfB s)),
+                           ("admissible", Json.bool (admissibleB s (.setField fi fname isList extra v u))),
+                           ("wf_after", Json.bool (wfB s'))]
       | "unmake" =>
         -- `_unmake_fst_tree()` of the FST `fst` (its AST subtree)
         let some fi := getNat o "fst" | return err "no fst"
